@@ -867,7 +867,8 @@ def validation_props():
 
 SEPS = [' ', ' ', ', ', ' / ', '', '-']
 TAILS = [' x-y', '', ' 1q', ' "s"', ' 0', ' f(1)']
-TOKENS = ['1px', '0', '1', '1.5', '-1', '"a"', 'url(a)', '1%', '#fff', 'a', '1s', '1deg', '1em', 'rgb(1,2,3)', 'attr(a)', 'counter(a)', '100']
+TOKENS = ['1px', '0', '1', '1.5', '-1', '"a"', 'url(a)', '1%', '#fff', 'a', '1s', '1deg', '1em', 'rgb(1,2,3)', 'attr(a)', 'counter(a)', '100',
+          'url("a b")', 'url(a\\)b)', '"a b"', 'red', 'inset', 'none']
 _OWN = {}
 
 
@@ -900,6 +901,9 @@ def validation_cases(tier):
                 yield {'prop': p, 'words': [w], 'sep': ', ', 'tail': ' x-y', 'ctx': 'style'}
         for w in ws:
             yield {'prop': p, 'words': [w], 'sep': ' ', 'tail': ' x-y', 'ctx': 'style'}
+        # groups of terms separated by commas (shadows, transitions, font families ...)
+        yield {'prop': p, 'words': ['0', '0', 'red'], 'sep': ',', 'tail': ',1', 'ctx': 'style', 'grouped': True}
+        yield {'prop': p, 'words': ['1px', 'a'], 'sep': ', ', 'tail': ' x-y', 'ctx': 'style', 'grouped': True}
         # one long word
         yield {'prop': p, 'words': ['ab'], 'sep': '', 'tail': ' 1q', 'ctx': 'style'}
         yield {'prop': p, 'words': ['a'], 'sep': '-', 'tail': ' 1q', 'ctx': 'style'}
@@ -915,12 +919,17 @@ def validation_strategy(draw):
         'sep': draw(st.sampled_from(SEPS)),
         'tail': draw(st.sampled_from(TAILS)),
         'ctx': draw(st.sampled_from(['style', 'style', 'font-face', 'page'])),
+        # the words form one group ('0 0 red') that is repeated with the separator between the groups
+        'grouped': draw(st.booleans()),
     }
 
 
 def _validation_text(case, k):
     ws = case['words']
-    value = case['sep'].join(ws[i % len(ws)] for i in range(k)) + case['tail']
+    if case.get('grouped'):
+        value = case['sep'].join([' '.join(ws)] * k) + case['tail']
+    else:
+        value = case['sep'].join(ws[i % len(ws)] for i in range(k)) + case['tail']
     decl = f'{case["prop"]}: {value}'
     if case['ctx'] == 'font-face':
         return '@font-face{' + decl + '}'
@@ -1008,3 +1017,8 @@ def check_value(case, ctx):
 
 
 SUBS.append(Sub('values', check_value, strategy=value_strategy, quick=6000, thorough=400000, shards_quick=8, budget_quick=60))
+
+
+from vlib.reported import reported_sub  # noqa: E402
+
+SUBS.append(reported_sub('C01'))
